@@ -679,6 +679,10 @@ func runLog(k *kernel.K, focus string) {
 				// segmentation; what must not differ is the head, and each side's body is a prefix of
 				// what the client sent.
 				a, b := plain.originReqs[e.id], logged.originReqs[e.id]
+				if a != nil && b != nil && !a.Complete && b.Complete {
+					// the client never finished its request: nobody can have seen the end of it
+					k.Fail("C15.twin_request", map[string]string{"logger": logger, "aspect": "complete", "fault": "client_closes_inside_body"}, "%s: the client closed after %d bytes of its request, inside the body; without a logger the origin received an incomplete request (%d body bytes), with the logger a complete, well-framed one (%d body bytes)", desc, e.reqCutAt, len(a.Body), len(b.Body))
+				}
 				if a != nil && b != nil {
 					ha, hb := wire.HeaderMap(a.Header), wire.HeaderMap(b.Header)
 					for _, name := range sortedKeys(hb) {
